@@ -208,6 +208,25 @@ func (r *Rollback) performRollback(currentRelease, targetRelease *release.Releas
 	if err != nil {
 		return targetRelease, errors.Wrap(err, "unable to set metadata visitor from target release")
 	}
+	// Resources of the target revision that the current (possibly failed) revision does not name may
+	// still be live, e.g. when an upgrade that drops them failed before it pruned them. Those that
+	// belong to this release are treated as current, as Upgrade does, so that Update patches them
+	// instead of aborting with "no <kind> with the name ... found".
+	named := make(map[string]bool)
+	for _, res := range current {
+		named[objectKey(res)] = true
+	}
+	var unnamed kube.ResourceList
+	for _, res := range target {
+		if !named[objectKey(res)] {
+			unnamed = append(unnamed, res)
+		}
+	}
+	if live, lerr := existingResourceConflict(unnamed, targetRelease.Name, targetRelease.Namespace); lerr == nil {
+		for _, res := range live {
+			current.Append(res)
+		}
+	}
 	results, err := r.cfg.KubeClient.Update(current, target, r.Force)
 
 	if err != nil {
